@@ -364,6 +364,10 @@ def empty_rule(rep, prog, cfg):
     if b is None:
         rep.fail(rule, cfg + "/shape", root[0].loc(root[0].span), "Client::command_list does not call CommandList::command_list")
         return
+    # the conversion of the frames may sit in a private helper of the client (`typed_list_responses`): spliced in (A12); the
+    # functions that talk to the connection stay calls
+    b = inlined(prog, b, same_impl_helpers(b, exclude={"mpd_client::client::Client::raw_command_list", "mpd_client::client::Client::do_send",
+                                                       "mpd_client::client::Client::raw_command"}))
     g = Cfg(b)
     cl = [(bb, t) for bb, t in b.calls() if "mpd_client::commands::command_list::CommandList::command_list" in callee_names(t)][0]
     sw = tables.discr_switches(b)
@@ -375,7 +379,8 @@ def empty_rule(rep, prog, cfg):
     sends = [bb for bb, t in b.calls() if any(n in ("mpd_client::client::Client::raw_command_list", "mpd_client::client::Client::do_send",
                                                      "mpd_client::client::Client::raw_command") for n in callee_names(t))]
     resp = [bb for bb, t in b.calls() if "mpd_client::commands::command_list::CommandList::responses" in callee_names(t)]
-    ok = none_t is not None and resp and sends and all(r in reach(g.succs, [none_t], avoid=sends) for r in resp) \
+    from_none = reach(g.succs, [none_t]) if none_t is not None else set()
+    ok = none_t is not None and resp and sends and any(r in from_none for r in resp) and not (set(sends) & from_none) \
         and all(s in reach(g.succs, [some_t]) for s in sends)
     rep.check(ok, rule, cfg + "/None arm skips the connection", b.loc(b.span),
               "an empty typed list does not go straight to responses() without sending anything")
